@@ -52,12 +52,12 @@ use grin_pool::types::{BlockChain, NoopPoolAdapter, PoolConfig, PoolError, TxSou
 use grin_pool::TransactionPool;
 use grin_util::secp::pedersen::Commitment;
 use serde_json::{json, Value};
-use std::collections::{BTreeMap, HashMap, HashSet};
+use std::collections::{HashMap, HashSet};
 use std::sync::{Arc, Mutex};
 use vcommon::ledger::{RefLedger, RefReject};
 use vcommon::monitor;
 use vcommon::world::{
-	fee_fields, height_locked, init_globals, init_thread, nrd, open_chain, Coin, PowMode, World,
+	fee_fields, height_locked, init_globals, nrd, open_chain, Coin, PowMode, World,
 };
 use vcommon::{Prng, Run, Scratch};
 
@@ -207,109 +207,6 @@ fn has_nrd(kernels: &[grin_core::core::TxKernel]) -> bool {
 }
 
 static SAMPLED: Mutex<Vec<String>> = Mutex::new(Vec::new());
-
-// ---------------------------------------------------------------- recorder
-
-/// Observation recorder with the interface of `Run`. Scenarios run in worker
-/// *processes* (grin verifies range proofs and signatures under one global
-/// secp mutex, so threads do not scale); each worker writes its observations
-/// as JSON lines and the parent replays them into the real `Run`.
-struct Rec {
-	lines: Mutex<Vec<String>>,
-	evals: Mutex<BTreeMap<(String, bool), u64>>,
-	counts: Mutex<BTreeMap<String, u64>>,
-}
-
-impl Rec {
-	fn new() -> Rec {
-		Rec {
-			lines: Mutex::new(vec![]),
-			evals: Mutex::new(BTreeMap::new()),
-			counts: Mutex::new(BTreeMap::new()),
-		}
-	}
-	fn eval(&self, sig: &str, nontrivial: bool) {
-		*self
-			.evals
-			.lock()
-			.unwrap()
-			.entry((sig.to_string(), nontrivial))
-			.or_insert(0) += 1;
-	}
-	fn count(&self, name: &str, n: u64) {
-		*self.counts.lock().unwrap().entry(name.to_string()).or_insert(0) += n;
-	}
-	fn violation(&self, sig: &str, what: &str, replay: Value) {
-		self.lines
-			.lock()
-			.unwrap()
-			.push(json!({"t": "viol", "sig": sig, "what": what, "replay": replay}).to_string());
-	}
-	fn inconclusive(&self, what: &str) {
-		self.lines
-			.lock()
-			.unwrap()
-			.push(json!({"t": "inc", "what": what}).to_string());
-	}
-	fn sample(&self, v: Value) {
-		self.lines
-			.lock()
-			.unwrap()
-			.push(json!({"t": "sample", "v": v}).to_string());
-	}
-	/// All observations since the last drain as JSON lines.
-	fn drain(&self) -> Vec<String> {
-		let mut out: Vec<String> = std::mem::take(&mut *self.lines.lock().unwrap());
-		let ev = std::mem::take(&mut *self.evals.lock().unwrap());
-		for ((sig, nt), n) in ev {
-			out.push(json!({"t": "eval", "sig": sig, "nt": nt, "n": n}).to_string());
-		}
-		let cn = std::mem::take(&mut *self.counts.lock().unwrap());
-		for (name, n) in cn {
-			out.push(json!({"t": "count", "name": name, "n": n}).to_string());
-		}
-		out
-	}
-}
-
-/// Replay one recorded line into the run context.
-fn apply_line(run: &Run, line: &str, sampled: &mut Vec<String>) {
-	let v: Value = match serde_json::from_str(line) {
-		Ok(v) => v,
-		Err(_) => {
-			run.count("worker_lines_unparsable", 1);
-			return;
-		}
-	};
-	match v.get("t").and_then(|t| t.as_str()) {
-		Some("eval") => {
-			let sig = v["sig"].as_str().unwrap_or("");
-			let n = v["n"].as_u64().unwrap_or(0);
-			if v["nt"].as_bool().unwrap_or(false) {
-				run.eval_bulk(n, vec![vcommon::prng::fnv64(sig.as_bytes())]);
-			} else {
-				run.eval_bulk(n, vec![]);
-			}
-		}
-		Some("count") => run.count(v["name"].as_str().unwrap_or("?"), v["n"].as_u64().unwrap_or(0)),
-		Some("viol") => run.violation(
-			v["sig"].as_str().unwrap_or("?"),
-			v["what"].as_str().unwrap_or(""),
-			v["replay"].clone(),
-		),
-		Some("inc") => run.inconclusive(v["what"].as_str().unwrap_or("")),
-		Some("sample") => {
-			let sv = v["v"].clone();
-			let rule = sv["rule"].as_str().unwrap_or("").to_string();
-			let class = sv["class"].as_str().unwrap_or("").to_string();
-			if sampled.len() < 6 && !sampled.iter().any(|k| k.starts_with(&rule) || k.ends_with(&class)) {
-				sampled.push(format!("{}:{}", rule, class));
-				run.sample(sv);
-			}
-		}
-		_ => run.count("worker_lines_unparsable", 1),
-	}
-}
 
 // ---------------------------------------------------------------- plans
 
@@ -529,7 +426,7 @@ fn gen_specs(seed: u64, n_extra: usize, san: bool) -> (Vec<Spec>, usize) {
 	let mut v: Vec<Spec> = vec![];
 	let rels = [2u64, 3, 5];
 	let mut reli = p.usize_below(3);
-	let mut mk = |kind: Kind, rule: RuleP, p: &mut Prng| -> Spec {
+	let mk = |kind: Kind, rule: RuleP, p: &mut Prng| -> Spec {
 		Spec {
 			kind,
 			rule,
@@ -602,9 +499,16 @@ fn gen_specs(seed: u64, n_extra: usize, san: bool) -> (Vec<Spec>, usize) {
 		sp.fat = fat;
 		v.push(sp);
 	}
+	{
+		// genesis coinbase: exercises the `height < maturity` shortcut (spend at height 2 / 3)
+		let mut sp = mk(Kind::Single, RuleP::Mat { b_only: true }, &mut p);
+		sp.s = 0;
+		v.push(sp);
+	}
 	if san {
-		// small subset under a sanitizer / valgrind
-		let keep = [0usize, 2, 12, 18, 25, 27];
+		// small subset under a sanitizer / valgrind: maturity single chain, lock re-applied
+		// fork, NRD rewound (A -> B -> A'), NRD cross fork
+		let keep = [0usize, 12, 25, 27];
 		let sub: Vec<Spec> = keep.iter().filter_map(|i| v.get(*i).cloned()).collect();
 		let n = sub.len();
 		return (sub, n);
@@ -666,7 +570,7 @@ struct Branch {
 }
 
 struct Sim<'a> {
-	run: &'a Rec,
+	run: &'a Run,
 	tag: String,
 	w: World,
 	prng: Prng,
@@ -691,7 +595,7 @@ struct Sim<'a> {
 }
 
 impl<'a> Sim<'a> {
-	fn new(run: &'a Rec, dir: &str, spec: &Spec) -> Result<Sim<'a>, String> {
+	fn new(run: &'a Run, dir: &str, spec: &Spec) -> Result<Sim<'a>, String> {
 		let w = World::new(spec.seed);
 		let mut prng = Prng::new(spec.seed ^ 0x51D);
 		let nrd_key = prng.fork(0x4e52_44);
@@ -1726,6 +1630,13 @@ impl<'a> Sim<'a> {
 						self.abort(&format!("harness: header of competing fork refused: {:?}", e));
 						return;
 					}
+					self.script.push(format!(
+						"h={} HEADER ONLY (competing fork from height {}, more work) outputs_in_block={} output_mmr_size={}",
+						h,
+						t,
+						blk.outputs().len(),
+						blk.header.output_mmr_size
+					));
 					tip = blk.hash();
 				}
 				let hh = self.chain.header_head().map(|t| t.last_block_h).ok();
@@ -1736,6 +1647,12 @@ impl<'a> Sim<'a> {
 				}
 				self.run.count("pool_header_fork_setups", 1);
 				self.pool_maturity("pool_header_fork");
+				// the chain itself (block at the next height) still decides by the rule
+				let next = self.height(&a.tip) + 1;
+				self.run_events(
+					&mut a,
+					&[Ev { h: next, dec: Some(("maturity", -1)), tx: TxSpec::SpendCbAt(next - 2) }],
+				);
 			}
 		}
 	}
@@ -1761,7 +1678,7 @@ fn probe_nrd_duplicate(seed: u64) -> bool {
 
 // ---------------------------------------------------------------- main
 
-fn run_scenario(rec: &Rec, base: &str, idx: usize, spec: &Spec) {
+fn run_scenario(rec: &Run, base: &str, idx: usize, spec: &Spec) {
 	let dir = format!("{}/s{}", base, idx);
 	let r = monitor::catch(|| {
 		let mut sim = match Sim::new(rec, &dir, spec) {
@@ -1794,35 +1711,23 @@ fn run_scenario(rec: &Rec, base: &str, idx: usize, spec: &Spec) {
 	let _ = std::fs::remove_dir_all(&dir);
 }
 
-/// Scenarios `k, k+n, k+2n, ...` of the spec list; the core set is always
-/// run, extras until `deadline` (seconds since worker start); everything is
-/// capped by `hard_deadline`. `emit` receives the JSON lines of each scenario.
-fn worker_loop(
-	specs: &[Spec],
-	core: usize,
-	k: usize,
-	n: usize,
-	base: &str,
-	deadline: f64,
-	hard_deadline: f64,
-	emit: &mut dyn FnMut(Vec<String>),
-) {
-	let start = std::time::Instant::now();
-	let rec = Rec::new();
+/// Scenarios `k, k+n, k+2n, ...` of the spec list (a function of the seed
+/// only, so every worker derives the same list); the core set is always run,
+/// extras until `deadline` seconds, everything is capped by `hard_deadline`.
+fn do_shard(run: &Run, specs: &[Spec], core: usize, k: usize, n: usize, deadline: f64, hard_deadline: f64) {
+	let sc = Scratch::new("c13");
+	let base = sc.path.to_string_lossy().to_string();
 	let mut i = k;
 	while i < specs.len() {
-		let el = start.elapsed().as_secs_f64();
+		let el = run.elapsed_s();
 		if (i >= core && el > deadline) || el > hard_deadline {
 			break;
 		}
-		run_scenario(&rec, base, i, &specs[i]);
-		emit(rec.drain());
+		run_scenario(run, &base, i, &specs[i]);
 		i += n;
 	}
-}
-
-fn arg_after(args: &[String], name: &str) -> Option<String> {
-	args.iter().position(|a| a == name).and_then(|i| args.get(i + 1).cloned())
+	run.count("shards_finished", 1);
+	drop(sc);
 }
 
 fn main() {
@@ -1832,29 +1737,13 @@ fn main() {
 	let san = run.args.iter().any(|a| a == "--san");
 	let n_extra = if san { 0 } else { run.tier.pick(600usize, 8000usize) };
 	let (specs, core) = gen_specs(run.seed, n_extra, san);
-	let deadline = run.tier.pick(42.0f64, 420.0f64);
+	let deadline = run.tier.pick(45.0f64, 430.0f64);
 	let hard_deadline = run.tier.pick(75.0f64, 640.0f64);
 
-	// ---- worker process: `--worker k n outfile`
-	if let Some(k) = arg_after(&run.args, "--worker") {
-		use std::io::Write;
-		let k: usize = k.parse().unwrap_or(0);
-		let n: usize = arg_after(&run.args, "--of").and_then(|s| s.parse().ok()).unwrap_or(1);
-		let out = arg_after(&run.args, "--out").expect("--out");
-		let sc = Scratch::new("c13w");
-		let mut f = std::fs::File::create(&out).expect("worker output file");
-		let base = sc.path.to_string_lossy().to_string();
-		worker_loop(&specs, core, k, n, &base, deadline, hard_deadline, &mut |lines| {
-			for l in lines {
-				let _ = writeln!(f, "{}", l);
-			}
-			let _ = f.flush();
-		});
-		let _ = writeln!(f, "{}", json!({"t": "count", "name": "workers_finished", "n": 1}));
-		drop(f);
-		drop(sc);
-		vcommon::ctx::cleanup_scratches();
-		std::process::exit(0);
+	// validation is serialised by grin's process-global secp mutex: shard over worker processes
+	if let Some((k, n)) = run.worker_shard() {
+		do_shard(&run, &specs, core, k, n.max(1), deadline, hard_deadline);
+		run.finish_worker();
 	}
 
 	run.set_rule(
@@ -1877,74 +1766,19 @@ fn main() {
 	let probe_ok = probe_nrd_duplicate(run.seed);
 	run.count("probe_nrd_duplicate_excess_ok", probe_ok as u64);
 
-	let sc = Scratch::new("c13");
-	let mut sampled: Vec<String> = vec![];
 	let mut nworkers = 0usize;
 	if !probe_ok {
 		run.inconclusive("unit probe failed: duplicate-excess NRD transactions could not be built");
 	} else if san {
-		// sanitizer / valgrind runs: everything in this (instrumented) process
-		let base = sc.path.to_string_lossy().to_string();
-		let mut all: Vec<String> = vec![];
-		worker_loop(&specs, core, 0, 1, &base, deadline, hard_deadline, &mut |lines| all.extend(lines));
-		for l in &all {
-			apply_line(&run, l, &mut sampled);
-		}
+		// sanitizer / valgrind runs: small workload, everything in this (instrumented) process
+		do_shard(&run, &specs, core, 0, 1, deadline, hard_deadline);
 	} else {
 		nworkers = std::thread::available_parallelism()
 			.map(|n| n.get())
 			.unwrap_or(4)
 			.min(16)
 			.max(1);
-		let exe = std::env::current_exe().expect("current_exe");
-		let mut children = vec![];
-		for k in 0..nworkers {
-			let out = sc.sub(&format!("w{}.jsonl", k));
-			let child = std::process::Command::new(&exe)
-				.args(["--tier", run.tier.name(), "--seed", &run.seed.to_string()])
-				.args(["--worker", &k.to_string(), "--of", &nworkers.to_string(), "--out", &out])
-				.env("VERIF_SCRATCH", sc.path.to_string_lossy().to_string())
-				.stdout(std::process::Stdio::null())
-				.spawn();
-			match child {
-				Ok(c) => children.push((k, out, c)),
-				Err(e) => run.inconclusive(&format!("cannot spawn worker {}: {}", k, e)),
-			}
-		}
-		// wait (bounded), then collect
-		let limit = hard_deadline + 40.0;
-		for (k, out, mut c) in children {
-			loop {
-				match c.try_wait() {
-					Ok(Some(st)) => {
-						if !st.success() {
-							run.inconclusive(&format!("worker {} ended with {:?}", k, st));
-							run.count("workers_failed", 1);
-						}
-						break;
-					}
-					Ok(None) => {
-						if run.elapsed_s() > limit {
-							let _ = c.kill();
-							let _ = c.wait();
-							run.inconclusive(&format!("worker {} killed at the hard time limit", k));
-							run.count("workers_killed", 1);
-							break;
-						}
-						std::thread::sleep(std::time::Duration::from_millis(50));
-					}
-					Err(e) => {
-						run.inconclusive(&format!("worker {}: wait failed: {}", k, e));
-						break;
-					}
-				}
-			}
-			if let Ok(text) = std::fs::read_to_string(&out) {
-				for l in text.lines() {
-					apply_line(&run, l, &mut sampled);
-				}
-			}
-		}
+		run.spawn_workers(nworkers, &[], (hard_deadline + 45.0) as u64);
 	}
 
 	// ---- minimum observations
@@ -1952,7 +1786,7 @@ fn main() {
 	if san {
 		run.require("decisions agreeing with the oracle", run.counter("decisions_agreeing"), 20);
 	} else {
-		run.require("worker processes finished", run.counter("workers_finished"), nworkers as u64);
+		run.require("worker processes finished", run.counter("shards_finished"), nworkers as u64);
 		let offs = ["-1", "0", "+1"];
 		let need: Vec<(&str, Vec<&str>)> = vec![
 			(
@@ -2029,6 +1863,5 @@ fn main() {
 		);
 		run.require("scenarios run", run.counter("scenarios_run"), core as u64);
 	}
-	drop(sc);
 	run.finish();
 }
